@@ -7,36 +7,36 @@
 (* kill call (where "because of that failure" is unambiguous); the            *)
 (* consultation counting applies to every trace.                              *)
 EXTENDS Integers, Sequences, FiniteSets, TLC, Json
-VARIABLES l, bad, parent, spawnedAt, fails, consults, cons, killedEv, restarted, kills, hookFailed, failMsg, delivCount, instAtFail, instNow, phase, killing, failsLive, nonResume
+VARIABLES l, bad, parent, spawnedAt, fails, consults, cons, killedEv, restarted, kills, hookFailed, failMsg, delivCount, instAtFail, instNow, phase, killing, failsLive, nonResume, probes
 TLog == ndJsonDeserialize("trace.ndjson")
 Ev == TLog[l]
 Get(f, k, d) == IF k \in DOMAIN f THEN f[k] ELSE d
 Put(f, k, v) == [x \in DOMAIN f \cup {k} |-> IF x = k THEN v ELSE f[x]]
 Flag(rule) == IF bad = "" THEN rule ELSE bad
-vars == <<l, bad, parent, spawnedAt, fails, consults, cons, killedEv, restarted, kills, hookFailed, failMsg, delivCount, instAtFail, instNow, phase, killing, failsLive, nonResume>>
+vars == <<l, bad, parent, spawnedAt, fails, consults, cons, killedEv, restarted, kills, hookFailed, failMsg, delivCount, instAtFail, instNow, phase, killing, failsLive, nonResume, probes>>
 
 Init == /\ l = 1 /\ bad = "" /\ parent = <<>> /\ spawnedAt = <<>> /\ fails = <<>> /\ consults = <<>> /\ cons = <<>>
         /\ killedEv = <<>> /\ restarted = {} /\ kills = 0 /\ hookFailed = FALSE /\ failMsg = <<>> /\ delivCount = <<>>
-        /\ instAtFail = <<>> /\ instNow = <<>> /\ phase = "" /\ killing = {} /\ failsLive = <<>> /\ nonResume = {}
+        /\ instAtFail = <<>> /\ instNow = <<>> /\ phase = "" /\ killing = {} /\ failsLive = <<>> /\ nonResume = {} /\ probes = {}
 
 RECURSIVE Anc(_, _)
 Anc(par, x) == IF x \notin DOMAIN par \/ par[x] = "root" THEN {} ELSE {par[x]} \cup Anc(par, par[x])
 Desc(par, S) == {d \in DOMAIN par : Anc(par, d) \cap S # {}}
-U == <<bad, parent, spawnedAt, fails, consults, cons, killedEv, restarted, kills, hookFailed, failMsg, delivCount, instAtFail, instNow, phase, killing, failsLive, nonResume>>
+U == <<bad, parent, spawnedAt, fails, consults, cons, killedEv, restarted, kills, hookFailed, failMsg, delivCount, instAtFail, instNow, phase, killing, failsLive, nonResume, probes>>
 
 OnReset == /\ Ev.e = "Reset"
            /\ parent' = <<>> /\ spawnedAt' = <<>> /\ fails' = <<>> /\ consults' = <<>> /\ cons' = <<>>
            /\ killedEv' = <<>> /\ restarted' = {} /\ kills' = 0 /\ hookFailed' = FALSE /\ failMsg' = <<>> /\ delivCount' = <<>>
-           /\ instAtFail' = <<>> /\ instNow' = <<>> /\ phase' = "" /\ killing' = {} /\ failsLive' = <<>> /\ nonResume' = {} /\ UNCHANGED bad
+           /\ instAtFail' = <<>> /\ instNow' = <<>> /\ phase' = "" /\ killing' = {} /\ failsLive' = <<>> /\ nonResume' = {} /\ probes' = {} /\ UNCHANGED bad
 OnSpawn == /\ Ev.e = "Spawn" /\ parent' = Put(parent, Ev.a, Ev.p) /\ spawnedAt' = Put(spawnedAt, Ev.a, l)
-           /\ UNCHANGED <<bad, fails, consults, cons, killedEv, restarted, kills, hookFailed, failMsg, delivCount, instAtFail, instNow, phase, killing, failsLive, nonResume>>
+           /\ UNCHANGED <<bad, fails, consults, cons, killedEv, restarted, kills, hookFailed, failMsg, delivCount, instAtFail, instNow, phase, killing, failsLive, nonResume, probes>>
 OnFail == /\ Ev.e = "Fail"
           /\ fails' = Put(fails, Ev.a, Get(fails, Ev.a, 0) + 1)
           /\ failMsg' = Put(failMsg, Ev.a, Ev.m)
           /\ instAtFail' = Put(instAtFail, Ev.a, Get(instNow, Ev.a, 0))
           \* a failure of an actor that has already received its OnKill is not a matter for supervision
           /\ failsLive' = IF Ev.a \in killing THEN failsLive ELSE Put(failsLive, Ev.a, Get(failsLive, Ev.a, 0) + 1)
-          /\ UNCHANGED <<bad, parent, spawnedAt, consults, cons, killedEv, restarted, kills, hookFailed, delivCount, instNow, phase, killing, nonResume>>
+          /\ UNCHANGED <<bad, parent, spawnedAt, consults, cons, killedEv, restarted, kills, hookFailed, delivCount, instNow, phase, killing, nonResume, probes>>
 OnConsult ==
     /\ Ev.e = "Consult"
     /\ LET key == <<Ev.a, Ev.p>> IN
@@ -52,23 +52,23 @@ OnConsult ==
                   ELSE bad
        \* an Escalate decision makes the supervisor itself the failing actor one level up
     /\ nonResume' = IF Ev.d \notin {"resume", "escalate"} THEN nonResume \cup {Ev.a} ELSE nonResume
-    /\ UNCHANGED <<parent, spawnedAt, fails, killedEv, restarted, kills, hookFailed, failMsg, delivCount, instAtFail, instNow, phase, killing, failsLive>>
+    /\ UNCHANGED <<parent, spawnedAt, fails, killedEv, restarted, kills, hookFailed, failMsg, delivCount, instAtFail, instNow, phase, killing, failsLive, probes>>
 OnEsc == FALSE
 OnEvKilled == /\ Ev.e = "EvKilled" /\ killedEv' = Put(killedEv, Ev.a, l)
-              /\ UNCHANGED <<bad, parent, spawnedAt, fails, consults, cons, restarted, kills, hookFailed, failMsg, delivCount, instAtFail, instNow, phase, killing, failsLive, nonResume>>
+              /\ UNCHANGED <<bad, parent, spawnedAt, fails, consults, cons, restarted, kills, hookFailed, failMsg, delivCount, instAtFail, instNow, phase, killing, failsLive, nonResume, probes>>
 OnHook == /\ Ev.e = "Hook"
           /\ restarted' = IF Ev.k = "restarted" THEN restarted \cup {Ev.a} ELSE restarted
           /\ hookFailed' = (hookFailed \/ Ev.v = 0)
-          /\ UNCHANGED <<bad, parent, spawnedAt, fails, consults, cons, killedEv, kills, failMsg, delivCount, instAtFail, instNow, phase, killing, failsLive, nonResume>>
+          /\ UNCHANGED <<bad, parent, spawnedAt, fails, consults, cons, killedEv, kills, failMsg, delivCount, instAtFail, instNow, phase, killing, failsLive, nonResume, probes>>
 OnKillCall == /\ Ev.e = "KillCall" /\ kills' = kills + 1
-              /\ UNCHANGED <<bad, parent, spawnedAt, fails, consults, cons, killedEv, restarted, hookFailed, failMsg, delivCount, instAtFail, instNow, phase, killing, failsLive, nonResume>>
+              /\ UNCHANGED <<bad, parent, spawnedAt, fails, consults, cons, killedEv, restarted, hookFailed, failMsg, delivCount, instAtFail, instNow, phase, killing, failsLive, nonResume, probes>>
 OnDeliv == /\ Ev.e = "Deliv"
            /\ instNow' = Put(instNow, Ev.a, Ev.i)
            /\ delivCount' = IF Ev.k = "user" THEN Put(delivCount, <<Ev.a, Ev.m>>, Get(delivCount, <<Ev.a, Ev.m>>, 0) + 1) ELSE delivCount
            /\ killing' = IF Ev.k = "kill" THEN killing \cup {Ev.a} ELSE IF Ev.k = "launch" THEN killing \ {Ev.a} ELSE killing
-           /\ UNCHANGED <<bad, parent, spawnedAt, fails, consults, cons, killedEv, restarted, kills, hookFailed, failMsg, instAtFail, phase, failsLive, nonResume>>
+           /\ UNCHANGED <<bad, parent, spawnedAt, fails, consults, cons, killedEv, restarted, kills, hookFailed, failMsg, instAtFail, phase, failsLive, nonResume, probes>>
 OnQBegin == /\ Ev.e = "QBegin" /\ phase' = Ev.s
-            /\ UNCHANGED <<bad, parent, spawnedAt, fails, consults, cons, killedEv, restarted, kills, hookFailed, failMsg, delivCount, instAtFail, instNow, killing, failsLive, nonResume>>
+            /\ UNCHANGED <<bad, parent, spawnedAt, fails, consults, cons, killedEv, restarted, kills, hookFailed, failMsg, delivCount, instAtFail, instNow, killing, failsLive, nonResume, probes>>
 
 TotalFails == LET RECURSIVE Sum(_) Sum(S) == IF S = {} THEN 0 ELSE LET x == CHOOSE x \in S : TRUE IN fails[x] + Sum(S \ {x}) IN Sum(DOMAIN fails)
 
@@ -80,6 +80,7 @@ EffectOK(s, c) ==
     IN CASE c.d \in {"restart", "grestart"} ->
               IF restarted # targets THEN "RestartTargetsExactly"
               ELSE IF dead \ below # {} THEN "RestartKillsNobodyElse"
+              ELSE IF c.failing \in DOMAIN instAtFail /\ Get(instNow, c.failing, 0) <= instAtFail[c.failing] THEN "RestartResetsStateWithFreshInstance"
               ELSE ""
          [] c.d \in {"stop", "gstop"} ->
               IF restarted # {} THEN "StopRestartsNobody"
@@ -111,6 +112,9 @@ OnQEnd ==
                             ELSE IF g \notin DOMAIN cons \/ cons[g].failing # s THEN "EscalateReachesGrandparent"
                             ELSE IF cons[g].d = "escalate" THEN "" ELSE EffectOK(g, cons[g])
                      ELSE EffectOK(s, cons[s])
+           \* after the one failure has been dealt with, every actor that is still alive answers its probe (nobody was left
+           \* suspended by the round: the failing actor, its one-for-all siblings, the supervisors of an escalation chain)
+           silent == {pr \in probes : pr[2] \notin DOMAIN killedEv /\ Get(delivCount, <<pr[2], pr[1]>>, 0) = 0}
            \* every escalation by a supervisor that stays alive under a grandparent that only ever resumes was put to that grandparent
            escalators == {sv \in DOMAIN parent : Get(consults, <<sv, "*esc">>, 0) > 0}
            dropped == {sv \in escalators : /\ parent[sv] # "root" /\ parent[sv] \notin DOMAIN killedEv /\ sv \notin DOMAIN killedEv
@@ -119,11 +123,15 @@ OnQEnd ==
        IN bad' = IF bad # "" THEN bad
                   ELSE IF phase = "probed" /\ unconsulted # {} THEN "ConsultedOnce"
                   ELSE IF phase = "probed" /\ kills = 0 /\ ~hookFailed /\ dropped # {} THEN "EveryEscalationReachesGrandparent"
+                  ELSE IF phase = "probed" /\ single /\ silent # {} THEN "EveryoneAliveContinuesAfterTheDecision"
                   ELSE r
-    /\ UNCHANGED <<parent, spawnedAt, fails, consults, cons, killedEv, restarted, kills, hookFailed, failMsg, delivCount, instAtFail, instNow, phase, killing, failsLive, nonResume>>
-OnOther == /\ Ev.e \notin {"Reset", "Spawn", "Fail", "Consult", "EvKilled", "Hook", "KillCall", "Deliv", "QBegin", "QEnd"}
+    /\ UNCHANGED <<parent, spawnedAt, fails, consults, cons, killedEv, restarted, kills, hookFailed, failMsg, delivCount, instAtFail, instNow, phase, killing, failsLive, nonResume, probes>>
+OnTell == /\ Ev.e = "Tell"
+          /\ probes' = IF Ev.s = "probe" THEN probes \cup {<<Ev.m, Ev.a>>} ELSE probes
+          /\ UNCHANGED <<bad, parent, spawnedAt, fails, consults, cons, killedEv, restarted, kills, hookFailed, failMsg, delivCount, instAtFail, instNow, phase, killing, failsLive, nonResume>>
+OnOther == /\ Ev.e \notin {"Tell", "Reset", "Spawn", "Fail", "Consult", "EvKilled", "Hook", "KillCall", "Deliv", "QBegin", "QEnd"}
            /\ UNCHANGED U
-Next == l <= Len(TLog) /\ l' = l + 1 /\ (OnReset \/ OnSpawn \/ OnFail \/ OnConsult \/ OnEvKilled \/ OnHook \/ OnKillCall \/ OnDeliv \/ OnQBegin \/ OnQEnd \/ OnOther)
+Next == l <= Len(TLog) /\ l' = l + 1 /\ (OnReset \/ OnSpawn \/ OnFail \/ OnConsult \/ OnEvKilled \/ OnHook \/ OnKillCall \/ OnDeliv \/ OnQBegin \/ OnQEnd \/ OnTell \/ OnOther)
 Spec == Init /\ [][Next]_vars
 Ok == bad = ""
 Accepted == TLCGet("stats").diameter - 1 = Len(TLog)
